@@ -101,6 +101,14 @@ func main() {
 		}
 	case "explain":
 		os.Exit(runExplain(opts, rest))
+	case "symbols":
+		// the pinned symbol table (checker/symbols_pinned.txt): every named library function of the tree
+		p := Load(opts.repo)
+		for _, fn := range p.Funcs {
+			if fn.Parent() == nil && fn.Synthetic == "" {
+				fmt.Println(p.FuncKey(fn))
+			}
+		}
 	case "tables":
 		p := Load(opts.repo)
 		fmt.Printf("packages %d, library %d, functions %d\n", len(p.All), len(p.Lib), len(p.Funcs))
